@@ -97,3 +97,15 @@ Example C18_example :
     [Node 0 [(3, 1)] [Node 1 [(0, 9)] []; Node 2 [(5, 2)] [Node 3 [(4, 8)] []; Node 4 [(6, 7)] []]]]
   = [(0, (5, 4)); (1, (2, 1)); (2, (1, 2)); (3, (1, 1)); (4, (0, 1))].
 Proof. vm_compute. reflexivity. Qed.
+
+(* every structure is drawn inside the interval spanned by the leaves below it: a branch sits
+   at the mean of its children and a mean lies between the extremes (any leaf order lo) *)
+From Coq Require Import QArith.
+From Dendro Require Import PlotInterval.
+Theorem C18_structure_inside_the_interval_of_its_leaves :
+  forall lo (a b : Q) t,
+    (forall l, In l (nodes t) -> is_leaf l = true ->
+       (a <= inject_Z (index_of (tid l) lo 0) /\ inject_Z (index_of (tid l) lo 0) <= b)%Q) ->
+    (a <= pos lo t /\ pos lo t <= b)%Q.
+Proof. exact pos_within. Qed.
+Print Assumptions C18_structure_inside_the_interval_of_its_leaves.
